@@ -1,5 +1,7 @@
 package main
 
+import "golang.org/x/tools/go/ssa"
+
 func init() { props["C15"] = c15 }
 
 func c15(r *Report) propMeta {
@@ -104,6 +106,11 @@ func c15(r *Report) propMeta {
 	r.Rule("C15.R8", "E19 constructors of x/oracle/types store their inputs unchanged")
 	r.CtorFaithful("ctor", faithfulCtors["oracle"]...)
 
+	r.Rule("C15.R9", "E17 the only reasons a report is refused")
+	r.ErrorCensusOf("report-refusals", []*ssa.Function{r.W.Fn("x/oracle/keeper.Keeper.AddReport")}, c15ReportErrs, 4,
+		"AddReport refuses a report only for the reasons of CheckValidReport (unknown request, validator not asked, already reported, wrong external ids): a report that arrives in time is stored",
+		"makes AddReport refuse the report", "a validator that reported before the request expired is later deactivated for missing it")
+
 	return propMeta{
 		Decided: []string{
 			"R1 NewValidatorStatus(true,…) only in Activate; NewValidatorStatus(false,…) only in MissReport and the not-found default; the status store has one writer reached only from Activate/MissReport/genesis",
@@ -114,8 +121,18 @@ func c15(r *Report) propMeta {
 			"R6 MissReport has exactly the two callers",
 			"R7 every KV-store Get/Has/Delete of x/oracle uses a key builder of x/oracle/types that some Set of the module also uses (a probe of an iteration prefix or of a sibling family is always-empty state)",
 			"R8 the literal constructors of x/oracle/types (frozen list) store each parameter or a constant unchanged in the record they build: what a handler validated is what is stored",
+			"R9 error-origin census of AddReport: the frozen set of refusal reasons (those of CheckValidReport); an added refusal - e.g. `request height + expiration <= block height`, which also fires in the expiry block itself (seed C15-8) - is reported",
 		},
 		Undecided: []string{"fairness over the four-clock timing space (boundary equalities being the intended ones)", "block time monotonicity"},
 		Assume:    []string{"msg handlers atomic"},
 	}
+}
+
+var c15ReportErrs = []errAllow{
+	{"x/oracle/keeper.Keeper.GetRequest", "fresh:x/oracle/types.ErrRequestNotFound", "the request does not exist (never created, or already expired and deleted)"},
+	{"x/oracle/keeper.Keeper.CheckValidReport", "fresh:x/oracle/types.ErrValidatorNotRequested", "the validator is not one of the request's chosen validators"},
+	{"x/oracle/keeper.Keeper.CheckValidReport", "fresh:x/oracle/types.ErrValidatorAlreadyReported", "a second report of the same validator"},
+	{"x/oracle/keeper.Keeper.CheckValidReport", "fresh:x/oracle/types.ErrInvalidReportSize", "the number of raw reports differs from the number of raw requests"},
+	{"x/oracle/keeper.Keeper.CheckValidReport", "fresh:x/oracle/types.ErrRawRequestNotFound", "an external id that the request did not ask"},
+	{"x/oracle/keeper.Keeper.CheckValidReport", "external:github.com/cosmos/cosmos-sdk/types.ValAddressFromBech32", "a stored requested-validator address fails to decode (written from validated addresses)"},
 }
